@@ -164,6 +164,8 @@ type histEngine struct {
 	// prebuilt: every history starts with `grog build <flags[0]>`, which is not counted in maxOps
 	// (the search starts from the state after a first build instead of the empty workspace)
 	prebuilt bool
+	// returnToggles: see runReturnHistories
+	returnToggles []int
 }
 
 var preOpNames = []string{"delete-lib-output", "delete-lib-output-parent-dir", "modify-lib-output", "truncate-gen-output", "delete-dist-dir", "replace-dist-dir-by-file", "add-stale-file-to-dist", "chmod-minus-x-tool"}
@@ -525,9 +527,76 @@ func (e *histEngine) run() {
 	for _, n := range frontier {
 		n.box.Remove()
 	}
+	e.runReturnHistories()
 	e.c.R.AddCounts(0, states, 0, 0)
 	e.c.R.Set("real_grog_builds", e.builds)
 	e.c.R.Set("history_length_bound", e.maxOps)
+}
+
+// runReturnHistories: longer, scripted histories that RETURN to a state cached earlier after the workspace was rewritten
+// by later executions: build A; edit t1 (B); build; undo t1 (A again: restored from cache); build; edit t2 (C: executes,
+// writing over the restored files in place); build; undo t2 (A); build. Every build is judged by the oracles of the
+// search. One history per ordered pair of the toggles in returnToggles.
+func (e *histEngine) runReturnHistories() {
+	if len(e.returnToggles) == 0 {
+		return
+	}
+	var wg sync.WaitGroup
+	sem := make(chan struct{}, 24)
+	n := 0
+	for _, t1 := range e.returnToggles {
+		for _, t2 := range e.returnToggles {
+			if t1 == t2 {
+				continue
+			}
+			n++
+			wg.Add(1)
+			sem <- struct{}{}
+			go func(t1, t2 int) {
+				defer wg.Done()
+				defer func() { <-sem }()
+				root, err := hist.NewBox(e.base)
+				if err != nil {
+					e.c.R.BrokenCheck("scratch: %v", err)
+					return
+				}
+				node := &hnode{box: root, ws: wsState{}, model: map[string]bool{}}
+				boxes := []*hist.Box{root}
+				defer func() {
+					for _, b := range boxes {
+						b.Remove()
+					}
+				}()
+				build := func() bool {
+					j := &buildJob{parent: node, flags: e.flags[0]}
+					e.doBuild(j)
+					if j.child == nil {
+						return false
+					}
+					node = j.child
+					boxes = append(boxes, node.box)
+					return true
+				}
+				toggle := func(tg int) {
+					ws := node.ws
+					ws.T[tg] = !ws.T[tg]
+					node = &hnode{box: node.box, boxKey: node.boxKey, ws: ws, builtWs: node.builtWs, model: node.model,
+						hist: append(append([]string{}, node.hist...), "edit "+toggleNames[tg]), lastOp: toggleNames[tg]}
+				}
+				if !build() {
+					return
+				}
+				for _, tg := range []int{t1, t1, t2, t2} {
+					toggle(tg)
+					if !build() {
+						return
+					}
+				}
+			}(t1, t2)
+		}
+	}
+	wg.Wait()
+	e.c.R.Set("return_histories", n)
 }
 
 func scratchBase(c *Ctx, tag string) (string, func()) {
@@ -580,13 +649,14 @@ func histCheck(prop string, keep []string, quickOps, thoroughOps int, configure 
 
 func init() {
 	Registry["C01"] = func(c *Ctx) {
-		c.R.Rule = "explicit-state breadth-first search over build histories: a state is (source toggles, workspace outputs, abstract cache content); operations = 13 source edits (append byte, move a byte from the end of one input to the start of the next, add/rename file under a glob, command change with/without output change, declared outputs, fingerprint value, fingerprint '=' shift, alias edge <-> direct edge, inputs of two other targets, platform), two workspace pre-state operations (a stale file inside a directory output, a tampered file output) and `grog build //...` / `grog build //b:top` / `grog build //...` started in the sub-directory a/src by the REAL binary on a cloned workspace+cache (every clone lives at a different absolute path); all histories of <= n operations with state de-duplication (quick: additionally all histories of <= n further operations after a first `build //...`, i.e. one operation deeper from the built state). After every build: exit 0, every declared output of every selected target equals a from-scratch build of the current sources (memoised per source state; the from-scratch build itself is checked against an absolute oracle: //b:app's output embeds the bytes of //a:lib's output, read both through $(output ...) and by path, and //b:top observed exactly that file), and no target is served from cache whose state (per a reference dictionary model) has no successful result. Non-trivial = a build with at least one cache hit and one execution."
+		c.R.Rule = "explicit-state breadth-first search over build histories: a state is (source toggles, workspace outputs, abstract cache content); operations = 13 source edits (append byte, move a byte from the end of one input to the start of the next, add/rename file under a glob, command change with/without output change, declared outputs, fingerprint value, fingerprint '=' shift, alias edge <-> direct edge, inputs of two other targets, platform), two workspace pre-state operations (a stale file inside a directory output, a tampered file output) and `grog build //...` / `grog build //b:top` / `grog build //...` started in the sub-directory a/src by the REAL binary on a cloned workspace+cache (every clone lives at a different absolute path); all histories of <= n operations with state de-duplication (quick: additionally all histories of <= n further operations after a first `build //...`, i.e. one operation deeper from the built state). Scripted return histories (9 operations, one per ordered pair of 6 edits): build; edit t1; build; undo t1; build (restored from cache); edit t2; build (executes over the restored files); undo t2; build. After every build: exit 0, every declared output of every selected target equals a from-scratch build of the current sources (memoised per source state; the from-scratch build itself is checked against an absolute oracle: //b:app's output embeds the bytes of //a:lib's output, read both through $(output ...) and by path, and //b:top observed exactly that file), and no target is served from cache whose state (per a reference dictionary model) has no successful result. Non-trivial = a build with at least one cache hit and one execution."
 		c.R.Assume("commands of the model workspace are deterministic functions of their declared inputs and dependency outputs", "the reference cache model keys on (label, command, declared outputs, fingerprint, platform, input path+content, observed dependency output contents)", "histories longer than the bound and workspaces other than the 6-target model workspace are not covered")
 		histCheck("C01", []string{"C01:", "C04:build-hangs"}, 3, 5, func(e *histEngine, thorough bool) {
 			// restores happen over whatever the workspace holds: a polluted directory output and a tampered file output
 			e.preOps = []string{"add-stale-file-to-dist", "modify-lib-output"}
 			// the directory grog is started in is not part of any target's state
 			e.flags = append(e.flags, buildFlags{Pattern: "//...", Cwd: "a/src"})
+			e.returnToggles = []int{tgAppend, tgShift, tgCmdOutput, tgSharedEdit, tgAppIn, tgToolIn}
 		})(c)
 		if !c.Thorough {
 			// quick: one operation deeper from the state after a first `build //...`
